@@ -44,6 +44,11 @@ type QueryIn struct {
 }
 
 type TreeIn struct {
+	// Dirs: package directories (relative to the module root example.com/m) that hold one Go file each;
+	// when present the loader runs inside that module so that recursive packages can be expanded.
+	Dirs     []string            `json:"dirs,omitempty"`
+	SubPkgs  map[string][]string `json:"subpkgs,omitempty"`
+	Matches  [][3]any            `json:"matches,omitempty"`
 	Env      [][2]string `json:"env,omitempty"`
 	Flags    CfgMap      `json:"flags,omitempty"`
 	Root     CfgMap      `json:"root"`
@@ -137,6 +142,22 @@ func loadTree(t *TreeIn, dir string) (rc *config.RootConfig, cfgPath string, err
 	}
 	cfgEnvMu.Lock()
 	defer cfgEnvMu.Unlock()
+	if len(t.Dirs) > 0 {
+		files := map[string]string{"go.mod": goModText}
+		for _, d := range t.Dirs {
+			files[d+"/x.go"] = "package " + filepath.Base(d) + "\n\ntype X interface{ M() }\n"
+		}
+		if werr := writeFiles(dir, files); werr != nil {
+			return nil, cfgPath, werr, ""
+		}
+		old, _ := os.Getwd()
+		if cerr := os.Chdir(dir); cerr != nil {
+			return nil, cfgPath, cerr, ""
+		}
+		defer os.Chdir(old)
+		os.Setenv("GOFLAGS", "-mod=mod")
+		os.Setenv("GOPROXY", "off")
+	}
 	clearMockeryEnv()
 	for _, kv := range t.Env {
 		os.Setenv(kv[0], kv[1])
@@ -348,6 +369,55 @@ func (g *treeGen) tree() *TreeIn {
 		}
 		t.Packages = append(t.Packages, pi)
 		t.Query = append(t.Query, QueryIn{pi.Path, "Unlisted"})
+	}
+	return t
+}
+
+// recTree: a recursive package, an explicitly listed sub-package of it, and unrelated siblings.
+func (g *treeGen) recTree() *TreeIn {
+	t := &TreeIn{Root: g.cfg("root", false), Dirs: []string{"p0", "p0/sub", "p0/sub/deep", "p0/other", "q", "q/inner"}}
+	delete(t.Root, "exclude-subpkg-regex")
+	mk := func(path, level string, recursive bool, null bool) PkgIn {
+		p := PkgIn{Path: "example.com/m/" + path}
+		if null {
+			p.Null = true
+			return p
+		}
+		p.Config = g.cfg(level, false)
+		delete(p.Config, "exclude-subpkg-regex")
+		if recursive {
+			p.Config["recursive"] = true
+		} else {
+			delete(p.Config, "recursive")
+		}
+		return p
+	}
+	t.Packages = append(t.Packages, mk("p0", "p0", true, false))
+	if g.r.Intn(3) != 0 {
+		t.Packages = append(t.Packages, mk("p0/sub", "p0/sub", g.r.Intn(4) == 0, g.r.Intn(2) == 0))
+	}
+	if g.r.Intn(3) == 0 {
+		t.Packages = append(t.Packages, mk("p0/other", "p0/other", false, g.r.Intn(2) == 0))
+	}
+	t.Packages = append(t.Packages, mk("q", "q", false, g.r.Intn(2) == 0))
+	if g.r.Intn(3) == 0 {
+		t.Packages = append(t.Packages, mk("q/inner", "q/inner", false, g.r.Intn(2) == 0))
+	}
+	g.r.Shuffle(len(t.Packages), func(i, j int) { t.Packages[i], t.Packages[j] = t.Packages[j], t.Packages[i] })
+	t.SubPkgs = map[string][]string{}
+	for _, d := range t.Dirs {
+		var subs []string
+		for _, e := range t.Dirs {
+			if e == d || strings.HasPrefix(e, d+"/") {
+				subs = append(subs, "example.com/m/"+e)
+			}
+		}
+		sort.Strings(subs)
+		t.SubPkgs["example.com/m/"+d] = subs
+	}
+	t.Matches = [][3]any{}
+	for _, p := range t.Packages {
+		t.Query = append(t.Query, QueryIn{p.Path, "Unlisted"})
 	}
 	return t
 }
